@@ -118,6 +118,13 @@ def step (st : State) (w : List String) : State × String :=
     | some l => (st, "reply=" ++ String.join (l.map boolStr))
     | none => (st, "bad-op")
   | "dchain" :: "rlserve" :: _ => (st, "unmodelled")
+  | ["dchain", "subq", n] =>
+    -- internal sub-queries run on the sub-pipelines, which hold no client policy
+    -- (`internal_pipelines_hold_no_client_policy`): every one is answered
+    match n.toNat? with
+    | some k => (st, s!"answered={k} prefetch={k}")
+    | none => (st, "bad-op")
+  | "live" :: "tls" :: _ => (st, "unmodelled")
   | ["cfg", "load", labels] =>
     -- the configuration file is a list: views keep their declaration order, the
     -- first declared view containing the client answers
